@@ -87,11 +87,28 @@ def _ifexp(test, a, b):
             else:
                 c.keywords[i - len(c.args)].value = new
             return c
+    # `f(x)[0] if c else f(y)[0]` -> `f(x if c else y)[0]` (same for an attribute of the result) - only when the inner factoring succeeds
+    if isinstance(a, ast.Subscript) and isinstance(b, ast.Subscript) and _norm(a.slice) == _norm(b.slice):
+        inner = _ifexp(test, a.value, b.value)
+        if not isinstance(inner, ast.IfExp):
+            return ast.Subscript(value=inner, slice=a.slice, ctx=ast.Load())
+    if isinstance(a, ast.Attribute) and isinstance(b, ast.Attribute) and a.attr == b.attr:
+        inner = _ifexp(test, a.value, b.value)
+        if not isinstance(inner, ast.IfExp):
+            return ast.Attribute(value=inner, attr=a.attr, ctx=ast.Load())
     return ast.IfExp(test=test, body=a, orelse=b)
 
 
 class _Canon(ast.NodeTransformer):
     """N2, N3, N5 on statement lists (applied bottom-up)."""
+
+    def visit_BinOp(self, node):
+        # N22: the concatenation of two string (bytes) constants is that constant (text assembled from named fragments, N21)
+        self.generic_visit(node)
+        if isinstance(node.op, ast.Add) and isinstance(node.left, ast.Constant) and isinstance(node.right, ast.Constant) \
+                and type(node.left.value) is type(node.right.value) and isinstance(node.left.value, (str, bytes)):
+            return _loc(ast.Constant(value=node.left.value + node.right.value), node)
+        return node
 
     def _block(self, body):
         out = []
@@ -1581,6 +1598,66 @@ def _single_expr(callee):
                 return e_
         return None
     return real[0].value
+
+
+def baseline_globals():
+    p = os.path.join(os.path.dirname(os.path.abspath(__file__)), "baseline_defs.json")
+    return {rel: set(v) for rel, v in json.load(open(p)).get("globals", {}).items()}
+
+
+def substitute_new_constants(rel, tree):
+    """N21: a private module-level name bound exactly once, at module level, to a constant expression (literals, arithmetic / concatenation of
+    literals and of other such names) that did not exist in the baseline is a value that was merely given a name: its uses are replaced by
+    the expression (in place). Names that are rebound anywhere, declared global, or not private are left alone."""
+    base = baseline_globals().get(rel)
+    if base is None:
+        return set()
+    cands = {}
+    counts = {}
+    for st in tree.body:
+        tg = st.targets[0] if isinstance(st, ast.Assign) and len(st.targets) == 1 else (st.target if isinstance(st, ast.AnnAssign) and st.value is not None else None)
+        if isinstance(tg, ast.Name):
+            cands[tg.id] = st.value
+    for x in ast.walk(tree):
+        if isinstance(x, ast.Name) and isinstance(x.ctx, (ast.Store, ast.Del)):
+            counts[x.id] = counts.get(x.id, 0) + 1
+        elif isinstance(x, (ast.Global, ast.Nonlocal)):
+            for n_ in x.names:
+                counts[n_] = counts.get(n_, 0) + 2
+        elif isinstance(x, ast.arg):
+            counts[x.arg] = counts.get(x.arg, 0) + 2          # shadowed somewhere: leave alone
+
+    def const(e, depth=0):
+        if depth > 6:
+            return False
+        if isinstance(e, ast.Constant):
+            return not isinstance(e.value, type(Ellipsis))
+        if isinstance(e, ast.UnaryOp) and isinstance(e.op, (ast.USub, ast.UAdd, ast.Invert)):
+            return const(e.operand, depth + 1)
+        if isinstance(e, ast.BinOp) and isinstance(e.op, (ast.Add, ast.Sub, ast.Mult, ast.Pow, ast.LShift, ast.FloorDiv, ast.Mod)):
+            return const(e.left, depth + 1) and const(e.right, depth + 1)
+        if isinstance(e, ast.Tuple):
+            return all(const(x, depth + 1) for x in e.elts)
+        if isinstance(e, ast.Name):
+            return e.id in new
+        return False
+    new = {}
+    for _ in range(4):
+        for nm, v in cands.items():
+            if nm in new or nm in base or not nm.startswith("_") or nm.startswith("__") or counts.get(nm, 0) != 1:
+                continue
+            if const(v):
+                new[nm] = v
+    if not new:
+        return set()
+    # resolve references between the new constants first
+    for _ in range(4):
+        for nm in list(new):
+            new[nm] = _Rename({k: v for k, v in new.items() if k != nm}).visit(copy.deepcopy(new[nm]))
+    ren = _Rename(dict(new))
+    tree.body = [st if (isinstance(st, (ast.Assign, ast.AnnAssign)) and isinstance(getattr(st, "targets", [getattr(st, "target", None)])[0], ast.Name)
+                        and getattr(st, "targets", [getattr(st, "target", None)])[0].id in new) else ren.visit(st) for st in tree.body]
+    return set(new)
 
 
 def normalize_function(model, rel, fn, owner_cls=None):
